@@ -1,6 +1,26 @@
 """Boilerplate for Kani units: a unit module calls `define(globals(), ...)`."""
 import os
+import re
 from common import VERIF, read
+from rsrc import match_close
+
+END_COVER = 'kani::cover!(true, "harness end reached");'
+
+
+def add_end_covers(text):
+    """Append a `cover!(true)` as the last statement of every #[kani::proof] fn: a harness whose tail is cut off (unreachable
+    code, truncated instrumentation) then fails the expected-cover count instead of passing silently."""
+    out = []
+    pos = 0
+    for m in re.finditer(r"#\[kani::proof\](?:\s*#\[[^\]]*\])*\s*fn\s+\w+\s*\(\s*\)\s*\{", text):
+        o = m.end() - 1
+        c = match_close(text, o)
+        out.append(text[pos:c])
+        out.append("\n        " + END_COVER + "\n    ")
+        pos = c
+    out.append(text[pos:])
+    return "".join(out)
+
 
 
 def define(g, name, crate, file, module, harness_file, properties, entries, params, assumptions, unverified,
@@ -25,6 +45,7 @@ def define(g, name, crate, file, module, harness_file, properties, entries, para
         t = read(os.path.join(VERIF, "units/harness", harness_file))
         for k, v in params(tier).items():
             t = t.replace("@" + k + "@", str(v))
+        t = add_end_covers(t)
         if "@" in t and any(("@" + k + "@") in t for k in ("N", "UNWIND", "L")):
             raise RuntimeError("unsubstituted template parameter in " + harness_file)
         sess.append(file, t)
@@ -44,7 +65,7 @@ def define(g, name, crate, file, module, harness_file, properties, entries, para
             for k, v in ps.items():
                 fn = fn.replace("@" + k + "@", str(v))
             out.append({"name": module + "::" + fn, "obligation": ob, "functions": fns, "mode": mode,
-                        "bound": bound(ps) if callable(bound) else bound, "covers": covers, "timeout": 1200})
+                        "bound": bound(ps) if callable(bound) else bound, "covers": (covers or 0) + 1, "timeout": 1200})
         return out
 
     g["splice"] = splice
